@@ -232,7 +232,8 @@ def finish(prop, tier, seed, clauses_results, t0, assumptions, level="model_chec
     """Match violations against the known findings, write replays and the evidence file, return the exit code."""
     findings = [f for f in load_findings() if f.get("property") == prop]
     open_keys = {f["key"]: f for f in findings if f.get("status") == "open"}
-    replay_dir = os.path.join(VERIF, "replays", prop)
+    outbase = os.environ.get("VERIF_OUT", VERIF)          # mutant / scratch runs write their evidence and replays elsewhere
+    replay_dir = os.path.join(outbase, "replays", prop)
     os.makedirs(replay_dir, exist_ok=True)
     for fn in os.listdir(replay_dir):
         if fn.endswith(".json"):
@@ -277,8 +278,8 @@ def finish(prop, tier, seed, clauses_results, t0, assumptions, level="model_chec
         "property_id": prop, "tier": tier, "seed": seed, "level": level, "coverage": cov,
         "assumptions": assumptions, "wall_s": round(time.time() - t0, 2), "violations": nviol,
     }
-    os.makedirs(os.path.join(VERIF, "evidence"), exist_ok=True)
-    with open(os.path.join(VERIF, "evidence", "%s.json" % prop), "w") as f:
+    os.makedirs(os.path.join(outbase, "evidence"), exist_ok=True)
+    with open(os.path.join(outbase, "evidence", "%s.json" % prop), "w") as f:
         json.dump(ev, f, indent=1, default=repr)
     for c in clauses_results:
         s = c.summary()
